@@ -48,7 +48,13 @@ def semantic_oracle(c: B.Case, nprng, trials=2):
         feeds, env = {}, {}
         used = {i.name for i in m.graph.input}
         for k, v in c.ins.items():
-            a = np.array(bool((t + hash(k)) % 2)) if v.type.dtype == np.dtype(bool) else nprng.standard_normal(2).astype(np.float32) * 3
+            shape = tuple(d if isinstance(d, int) else 2 for d in (v.type.shape if v.type.shape is not None else (2,)))
+            if v.type.dtype == np.dtype(bool):
+                a = np.array(bool((t + hash(k)) % 2))
+            elif np.dtype(v.type.dtype).kind in "iu":
+                a = nprng.randint(0, 5, size=shape).astype(v.type.dtype)
+            else:
+                a = (nprng.standard_normal(shape) * 3).astype(v.type.dtype)
             env[id(v)] = a
             if k in used:
                 feeds[k] = a
